@@ -1,9 +1,12 @@
 (* Properties/C13.v -- property theorems for C13; statements only.
-   Proved so far: the escape level (escape_roundtrip).  The zone level
-     zone_roundtrip_partial -- forall z loaded or built, forall record order,
-       deserialise (serialise z) = Ok z' /\ z' ~ z;  normalise_idempotent
-   is the follow-up task and is covered by the correspondence stream (RT / B cases and the
-   real ztoz binary run twice) meanwhile. *)
+   "Writing any loaded zone back to text and parsing that text gives an equal zone - same apex, SOA,
+   records, wildcard records and TTLs - so normalising a zone file (ztoz) preserves its meaning and
+   normalising twice changes nothing more. ..."
+
+   First the escape level (escape_roundtrip), then -- second half of the file -- the zone level:
+   relative_name_roundtrip, zone_roundtrip (built zones, every admissible record order),
+   normalise_idempotent, loaded_built / loaded_roundtrip (zones the parser returns), and the same
+   for the address codec the model is run with, where no hypothesis about the codec is left. *)
 From RV Require Import Base.Prelude Name.NameModel ZoneFile.ZoneFileModel ZoneFile.ZoneFileSpec
      ZoneFile.ZoneSerialiseModel ZoneFile.ZoneFileProofs ZoneFile.ZoneSerialiseProofs.
 
@@ -34,3 +37,118 @@ Theorem C13_serialise_octets_ascii : forall bs q,
   Forall (fun o => o < 256) bs -> Forall (fun c => 32 <= c <= 126) (serialise_octets bs q).
 Proof. exact serialise_octets_ascii. Qed.
 Print Assumptions C13_serialise_octets_ascii.
+
+(* ====================================================================== *)
+(* the zone level                                                          *)
+(* ====================================================================== *)
+From RV Require Import Wire.WireTypes Zone.ZoneModel Zone.ZoneFlat Zone.ZoneProofs ZoneFile.ZfInstance
+     ZoneFile.ZoneRtLines ZoneFile.ZoneRtLoop ZoneFile.ZoneRoundTrip ZoneFile.ZoneRtOrder ZoneFile.ZoneRtLoaded
+     ZoneFile.ZoneRtCodec ZoneFile.ZoneRtFinal.
+
+(* relative_name_roundtrip.  [name_ok]: well formed, labels ASCII and dot-free (D7).  What
+   serialise_domain writes for a name -- relative to the apex, "@" for the apex itself, or the
+   absolute name (root apex, zone not authoritative, name outside the apex, or the relative part
+   being the single label "@": the repaired F5) -- is, once un-escaped by the tokeniser
+   ([dom_text]), read back as that name under the origin in force ([zorigin]: the apex iff a
+   "$ORIGIN" line was written); in owner position it is an ordinary owner unless its leftmost label
+   is "*", and with "*." before it the wildcard at that name *)
+Theorem C13_relative_name_roundtrip : forall z name,
+  name_ok (z_apex z) -> name_ok name ->
+  serialise_domain z name = Ok (serialise_octets (dom_text z name) false)
+  /\ parse_domain (zorigin z) (dom_text z name) = Ok name
+  /\ (first_label name <> S_STAR -> parse_domain_or_wildcard (zorigin z) (dom_text z name) = Ok (MNormal name))
+  /\ parse_domain_or_wildcard (zorigin z) (42 :: 46 :: dom_text z name) = Ok (MWildcard name).
+Proof.
+  intros z name Ha Hn. split; [apply serialise_domain_text; assumption|]. split; [apply dom_text_parse; assumption|].
+  split; [intro; apply dom_text_owner; assumption|apply dom_text_wild; assumption].
+Qed.
+Print Assumptions C13_relative_name_roundtrip.
+
+(* zone_roundtrip.
+   [built z]: z = Zone::new(apex, soa) followed by insert / insert_wildcard calls, where the apex
+   is the root or the zone has a SOA (D5), the apex, every owner and every name in RDATA (SOA
+   included) is well formed with ASCII dot-free labels (D7), the leftmost label of the apex and
+   of every ORDINARY owner is not the single octet "*" (names merely starting with '*' are
+   fine), the inserted records have one of the 18 types the parser knows other than SOA with
+   RDATA of that type's shape, u16/u32 fields and TTLs in range, octet strings of octets, and A /
+   AAAA values a u32 / eight u16.
+   [admissible z recs wrecs]: the (name, records) lists the serialiser iterates over list the
+   zone's records -- one entry per owner, no empty entry, under an owner the records of each type
+   in the zone's order, the types themselves in ANY order (HashMap iteration order; even
+   interleaved); the names in any order (they are sorted anyway).
+   [zone_same z z']: same apex, same SOA, the same nodes, and at every node for every type the
+   same list of ordinary and of wildcard records (data, TTLs, order).
+   For every codec with Display-then-FromStr the identity on plain characters ([codec_rt]): *)
+Theorem C13_zone_roundtrip : forall ip, codec_rt ip -> forall z recs wrecs,
+  built z -> admissible z recs wrecs ->
+  exists txt z', zone_serialise_with ip z recs wrecs = Ok txt /\ deserialise ip txt = Ok z' /\
+    zone_same z z' /\ built z' /\ admissible z' recs wrecs /\ zone_serialise_with ip z' recs wrecs = Ok txt.
+Proof. exact zone_roundtrip. Qed.
+Print Assumptions C13_zone_roundtrip.
+
+(* the order of the model's own all_records / all_wildcard_records is admissible, and so is every
+   re-ordering of the names and of the type groups under a name *)
+Theorem C13_own_order_admissible : forall z, built z ->
+  admissible z (zone_all_records z) (zone_all_wildcard_records z).
+Proof. exact own_order_admissible. Qed.
+Print Assumptions C13_own_order_admissible.
+
+Theorem C13_regroup_admissible : forall z recs wrecs recs' wrecs',
+  admissible z recs wrecs -> regrouped recs recs' -> regrouped wrecs wrecs' -> admissible z recs' wrecs'.
+Proof. exact regroup_admissible. Qed.
+Print Assumptions C13_regroup_admissible.
+
+(* normalise_idempotent: the zone read back, written again in the order of the first pass, gives
+   the very same text; written in any order admissible for it and read again, it is the same zone *)
+Theorem C13_normalise_idempotent : forall ip, codec_rt ip -> forall z recs wrecs txt z',
+  built z -> admissible z recs wrecs ->
+  zone_serialise_with ip z recs wrecs = Ok txt -> deserialise ip txt = Ok z' ->
+  zone_serialise_with ip z' recs wrecs = Ok txt /\
+  forall recs' wrecs', admissible z' recs' wrecs' ->
+    exists txt' z'', zone_serialise_with ip z' recs' wrecs' = Ok txt' /\ deserialise ip txt' = Ok z'' /\
+                     zone_same z' z'' /\ zone_same z z''.
+Proof. exact normalise_idempotent. Qed.
+Print Assumptions C13_normalise_idempotent.
+
+(* loaded zones: whatever Zone::deserialise returns is a built zone (every label ASCII and dot-free
+   -- any ASCII octet incl. @ ; ( ) double quote, backslash, space and controls, lower-cased --; an ordinary owner's
+   leftmost label is never "*" since fix 0286676; FromStr of the codec yields values in range) *)
+Theorem C13_loaded_built : forall ip, codec_range ip -> forall data z, deserialise ip data = Ok z -> built z.
+Proof. exact loaded_built. Qed.
+Print Assumptions C13_loaded_built.
+
+Theorem C13_loaded_roundtrip : forall ip, codec_rt ip -> codec_range ip -> forall data z recs wrecs,
+  deserialise ip data = Ok z -> admissible z recs wrecs ->
+  exists txt z', zone_serialise_with ip z recs wrecs = Ok txt /\ deserialise ip txt = Ok z' /\
+    zone_same z z' /\ zone_serialise_with ip z' recs wrecs = Ok txt.
+Proof. exact loaded_roundtrip. Qed.
+Print Assumptions C13_loaded_roundtrip.
+
+(* the codec the model is run with (std's Ipv4Addr / Ipv6Addr as modelled in Ip/IpModel.v) meets both
+   hypotheses ... *)
+Theorem C13_codec_instance : codec_rt zf_codec /\ codec_range zf_codec.
+Proof. exact (conj zf_codec_rt zf_codec_range). Qed.
+Print Assumptions C13_codec_instance.
+
+(* ... so for Zone::serialise / Zone::deserialise as the model driver runs them nothing is assumed:
+   API-built zones, and ztoz (parse, write, parse, write, parse) on any text that parses *)
+Theorem C13_zone_roundtrip_zf : forall z, built z ->
+  exists txt z', zf_serialise z = Ok txt /\ zf_deserialise txt = Ok z' /\ zone_same z z'.
+Proof. exact zf_zone_roundtrip. Qed.
+Print Assumptions C13_zone_roundtrip_zf.
+
+Theorem C13_ztoz_twice_zf : forall data z, zf_deserialise data = Ok z ->
+  exists txt z', zf_serialise z = Ok txt /\ zf_deserialise txt = Ok z' /\ zone_same z z' /\
+    exists txt' z'', zf_serialise z' = Ok txt' /\ zf_deserialise txt' = Ok z'' /\ zone_same z' z'' /\ zone_same z z''.
+Proof. exact zf_loaded_roundtrip. Qed.
+Print Assumptions C13_ztoz_twice_zf.
+
+(* the hypotheses are satisfiable: an authoritative zone with the owner "\@", a wildcard at the apex
+   holding a TXT made of every kind of special octet, the owner "*a", an owner "a b.;"; a root-apex
+   zone that is not authoritative; a zone loaded through "$ORIGIN *.e." / "@" (ZoneRtFinal.Examples) *)
+Example C13_built_ex1 : exists z txt z', zone_build Examples.apex1 (Some Examples.so1) Examples.ops1 = Ok z /\
+  zf_serialise z = Ok txt /\ zf_deserialise txt = Ok z' /\ zone_same z z'.
+Proof. exact Examples.roundtrip1. Qed.
+Example C13_built_ex2 : exists z txt z', zone_build root_domain None Examples.ops2 = Ok z /\
+  zf_serialise z = Ok txt /\ zf_deserialise txt = Ok z' /\ zone_same z z'.
+Proof. exact Examples.roundtrip2. Qed.
